@@ -48,6 +48,9 @@ pub fn profile(tier: Tier) -> Profile {
     p.w_purge = 3;
     p.w_read = 0;
     p.with_alt = true;
+    // worker I/O faults before the crash (round 3): a failed or torn write, a failed sync —
+    // whatever the store did about them, the directory must still open after the crash
+    p.faults = crate::ops::FaultGen::Io;
     p
 }
 
@@ -174,6 +177,12 @@ impl Prop for C05 {
     }
     fn run_case(&self, case: &Case, ctx: &Ctx) -> Result<CaseInfo, Fail> {
         let mut info = CaseInfo::default();
+        // half of the cases run without injected faults (those keep their clean restarts)
+        let mut eff = case.clone();
+        if case.sel & 1 == 0 {
+            eff.faults.clear();
+        }
+        let case = &eff;
         let rec = crash::record(case, false, false)?;
         let icfg = image_cfg(case);
         let per_point = if ctx.tier == Tier::Quick { 5 } else { 30 };
@@ -277,6 +286,8 @@ impl Prop for C05 {
         info.nontrivial = !nt.is_empty();
         info.nontrivial_hashes = nt;
         info.sample = sample;
+        info.label_n("hist_faults_hit", rec.faults_hit as u64);
+        info.label_n("hist_hard_faults_hit", rec.hard_faults_hit as u64);
         info.known_hits = known_hits;
         info.excluded = excluded;
         Ok(info)
